@@ -82,7 +82,9 @@ Contribute(u, amounts, acc, m, strict) ==
    p[r]*units <= x*reserve[r]  - never more than the pro-rata share rounded down.            *)
 RedeemOK(u, x, p) ==
   /\ LE(Z, x) /\ LE(x, held[u])          \* redeeming nothing pays nothing
-  /\ \A r \in Res : Amt(p[r], r) /\ LE(Times(p[r], units), Times(x, reserve[r]))
+  /\ \A r \in Res : /\ Amt(p[r], r)
+                     /\ IF x = Z THEN p[r] = Z          \* (also keeps 0 * anything <= 0 from admitting a payout)
+                        ELSE LE(Times(p[r], units), Times(x, reserve[r]))
 Redeem(u, x, p) ==
   /\ RedeemOK(u, x, p)
   /\ reserve' = [r \in Res |-> Minus(reserve[r], p[r])]
